@@ -4,7 +4,8 @@ Framing of the byte stream by the TCP clients (ioclient.py): `readexactly(13)` (
 the transport appends whatever it received (`feed`), from which the receive loop takes packets as
 soon as a whole one is there.  Assumption (trusted, exercised through the real StreamReader in the
 correspondence): `readexactly`/`readline` consume the concatenation of what was fed, in order.
-Lines longer than the reader's 64 KiB limit are out of scope.
+Lines longer than the reader's limit (64 KiB by default): `stepLim`/`feedLim` below model `readuntil` with its limit and the text
+client's own handling of `LimitOverrunError` (`TextNmea2000Gateway._receive_impl`); `feedLines` is the limit-free reading.
 -/
 namespace N2k.Reader
 
@@ -35,6 +36,63 @@ def takeLines : Nat → Bytes → List Bytes → Bytes × List Bytes
 def feedLines (buf data : Bytes) : Bytes × List Bytes :=
   let b := buf ++ data
   takeLines (b.length + 1) b []
+
+/-! ### lines with the reader's limit (`readuntil(b'\n')` + the text client's overrun handling)
+
+One call of `_receive_impl` on the buffer as it is: `readuntil` looks for the newline; without one it raises `LimitOverrunError(consumed =
+len(buffer))` once the buffer is longer than `limit`, and otherwise waits for data; with one at index `i` it raises
+`LimitOverrunError(consumed = i)` if `i > limit` and otherwise returns the line.  On an overrun the client consumes what the reader
+reported (`readexactly(e.consumed)`) and remembers that it is inside an overlong line (`skip`); the next line it gets is the rest of that
+line and is dropped. -/
+
+structure LState where
+  buf : Bytes := []
+  skip : Bool := false
+deriving DecidableEq, Repr, Inhabited
+
+/-- one `_receive_impl` call: `none` = waits for more data; otherwise the new state and the line handed to the decoder, if any -/
+def stepLim (limit : Nat) (st : LState) : Option (LState × Option Bytes) :=
+  match findNl st.buf with
+  | none => if limit < st.buf.length then some ({ buf := [], skip := true }, none) else none
+  | some i =>
+    if limit < i then some ({ buf := st.buf.drop i, skip := true }, none)
+    else if st.skip then some ({ buf := st.buf.drop (i + 1), skip := false }, none)
+    else some ({ buf := st.buf.drop (i + 1), skip := false }, some (st.buf.take (i + 1)))
+
+/-- the receive loop until it has to wait (`fuel` bounds the loop: every call consumes at least one byte) -/
+def drainLim (limit : Nat) : Nat → LState → List Bytes → LState × List Bytes
+  | 0, st, acc => (st, acc.reverse)
+  | fuel + 1, st, acc =>
+    match stepLim limit st with
+    | none => (st, acc.reverse)
+    | some (st', none) => drainLim limit fuel st' acc
+    | some (st', some l) => drainLim limit fuel st' (l :: acc)
+
+/-- the transport appends `data`; the receive loop runs until it waits again -/
+def feedLim (limit : Nat) (st : LState) (data : Bytes) : LState × List Bytes :=
+  let b := st.buf ++ data
+  drainLim limit (b.length + 1) { st with buf := b } []
+
+def feedAllLim (limit : Nat) (st : LState) : List Bytes → LState × List Bytes
+  | [] => (st, [])
+  | d :: ds =>
+    let (s1, o1) := feedLim limit st d
+    let (s2, o2) := feedAllLim limit s1 ds
+    (s2, o1 ++ o2)
+
+/-- the specification: a byte-at-a-time automaton.  `buf` is the line so far; more than `limit` bytes without a newline: forget them
+and drop everything up to and including the next newline -/
+def autoByte (limit : Nat) (st : LState × List Bytes) (b : Nat) : LState × List Bytes :=
+  if b = 10 then
+    if st.1.skip then ({ buf := [], skip := false }, st.2)
+    else ({ buf := [], skip := false }, st.2 ++ [st.1.buf ++ [10]])
+  else if st.1.skip then st
+  else
+    let cur := st.1.buf ++ [b]
+    if limit < cur.length then ({ buf := [], skip := true }, st.2) else ({ buf := cur, skip := false }, st.2)
+
+def autoRun (limit : Nat) (st : LState) (data : Bytes) : LState × List Bytes :=
+  data.foldl (autoByte limit) (st, [])
 
 def feedAll (f : Bytes → Bytes → Bytes × List Bytes) (buf : Bytes) : List Bytes → Bytes × List Bytes
   | [] => (buf, [])
